@@ -689,6 +689,80 @@ func isFreshSeen(p *an.Prog, base ssa.Value, depth int, seen map[ssa.Value]bool)
 		return isFreshSeen(p, x.X, depth, seen)
 	case *ssa.Slice:
 		return isFreshSeen(p, x.X, depth, seen)
+	case *ssa.MakeInterface:
+		return isFreshSeen(p, x.X, depth, seen)
+	case *ssa.TypeAssert:
+		return isFreshSeen(p, x.X, depth, seen)
+	}
+	// an element read back out of a slice this function is building from new objects
+	if u, ok := base.(*ssa.UnOp); ok && u.Op == token.MUL {
+		if ia, ok := u.X.(*ssa.IndexAddr); ok {
+			return sliceElemsFresh(p, ia.X, depth, map[ssa.Value]bool{})
+		}
+	}
+	if ex, ok := base.(*ssa.Extract); ok {
+		if ta, ok := ex.Tuple.(*ssa.TypeAssert); ok && ex.Index == 0 {
+			return isFreshSeen(p, ta.X, depth, seen)
+		}
+	}
+	return false
+}
+
+// sliceElemsFresh: the slice s was made in this function and everything put into it - by append or
+// by element store - was allocated in this call (directly or by a callee that returns new objects).
+func sliceElemsFresh(p *an.Prog, s ssa.Value, depth int, seen map[ssa.Value]bool) bool {
+	if seen[s] {
+		return true
+	}
+	seen[s] = true
+	elemsOK := func(v ssa.Value) bool {
+		if v.Referrers() == nil {
+			return true
+		}
+		for _, u := range *v.Referrers() {
+			if ia, ok := u.(*ssa.IndexAddr); ok && ia.X == v {
+				for _, sv := range an.Stores(ia) {
+					if !isFresh(p, sv, depth+1) {
+						return false
+					}
+				}
+			}
+		}
+		return true
+	}
+	switch x := s.(type) {
+	case *ssa.MakeSlice:
+		return elemsOK(x)
+	case *ssa.Const:
+		return true
+	case *ssa.Phi:
+		for _, e := range x.Edges {
+			if !sliceElemsFresh(p, e, depth, seen) {
+				return false
+			}
+		}
+		return elemsOK(x)
+	case *ssa.Slice:
+		if al, ok := x.X.(*ssa.Alloc); ok {
+			// a literal or a variadic argument list: the values stored into its backing array
+			if al.Referrers() != nil {
+				for _, u := range *al.Referrers() {
+					if ia, ok := u.(*ssa.IndexAddr); ok {
+						for _, sv := range an.Stores(ia) {
+							if !isFresh(p, sv, depth+1) {
+								return false
+							}
+						}
+					}
+				}
+			}
+			return true
+		}
+		return sliceElemsFresh(p, x.X, depth, seen)
+	case *ssa.Call:
+		if b, ok := x.Call.Value.(*ssa.Builtin); ok && b.Name() == "append" && len(x.Call.Args) == 2 {
+			return sliceElemsFresh(p, x.Call.Args[0], depth, seen) && sliceElemsFresh(p, x.Call.Args[1], depth, seen) && elemsOK(x)
+		}
 	}
 	return false
 }
